@@ -137,8 +137,40 @@ def run(ctx):
 
 def replay(ctx, obj):
     c = obj['case']
+    if obj.get('kind') == 'case_ref':
+        ref = O.call('sites_ref', [c['rule'], c['exc'], c['seq']])
+        a = I.run_cases('c10', [c], jobs=1, tag='c10r')[0]
+        return dict(violations=[] if a == ref else [{'what': 'replay: impl %s vs reference %s' % (a, ref), 'replay_obj': obj, 'no_input': False}])
     impl, model, bad = compare(ctx, [c])
     v = []
     for c, a, b in bad:
         v.append({'what': 'replay: impl %s vs model %s' % (str(a)[:200], str(b)[:200]), 'replay_obj': obj, 'no_input': False})
     return dict(violations=v)
+
+def search_failing_input(ctx, broken):
+    """A C10 obligation no longer checks (typically: the rule table regenerated from
+    expasy_rules.py differs from the ExPASy reference).  Search for a string on which the
+    implementation's cleavage sites differ from the reference rule's sites."""
+    import random
+    rng = random.Random(ctx.seed)
+    names = R.rule_names()
+    cases = []
+    for rule in names:
+        letters = R.rule_letters(rule)
+        alpha = (letters if len(letters) <= 7 else ''.join(rng.sample(letters, 7))) + 'G'
+        for n in range(1, 5):
+            for tup in itertools.product(alpha, repeat=n):
+                cases.append(dict(kind='sites', rule=rule, exc='trypsin_exception' if rule == 'trypsin' else None, seq=''.join(tup)))
+        for _ in range(400):
+            cases.append(dict(kind='sites', rule=rule, exc=('trypsin_exception' if rule == 'trypsin' and rng.random() < .5 else None),
+                              seq=R.gen_protein(rng, rule, rng.randint(3, 30), extra='UX*', bias=0.8)))
+    try:
+        ref = O.call_parallel([('sites_ref', [c['rule'], c['exc'], c['seq']]) for c in cases], jobs=8)
+    except Exception:
+        return None
+    impl = I.run_cases('c10', cases, jobs=ctx.jobs, tag='c10s')
+    for c, a, b in zip(cases, impl, ref):
+        if a != b:
+            return {'kind': 'case_ref', 'case': c, 'impl': a, 'reference': b,
+                    'what': 'sites of %r under rule %r: implementation %s, ExPASy reference %s' % (c['seq'], c['rule'], a, b)}
+    return None
